@@ -44,6 +44,8 @@ def run(ctx):
         "default character repertoire only; values valid for their VR; fragments of even length",
     ]
     vlib.build_harness(["drv_dataset"])
+    if P.replay(ctx, "C01"):
+        return
     env = P.driver_env(ctx)
     sweeps = ["vr", "struct"] + ([] if q else ["struct3"])
     jobs = P.ds_jobs(ctx, sweeps) + [("DataSetWriter", "Gen_DataSetWriter.cfg" if q else "Gen_DataSetWriter_thorough.cfg",
